@@ -400,7 +400,7 @@ class PyExec:
 def op_to_wire(op):
     k = op[0]
     if k == "new":
-        return ["$new", "$" + op[1], doc_to_wire(op[2])]
+        return ["$new", "$" + op[1], doc_to_wire(gen.effective_spec(op[2]))]
     if k == "fill":
         return ["$fill", "$" + op[1], [cell_to_wire(c) for c in op[2]], num_to_wire(op[3])]
     if k == "fills":
@@ -435,6 +435,8 @@ def op_to_wire(op):
         return ["$drop", "$" + op[1]]
     if k == "goodrun":
         return ["$goodrun", "$" + op[1], [[[cell_to_wire(c) for c in d], num_to_wire(w)] for d, w in op[2]]]
+    if k == "pickle":
+        return ["$dup", "$" + op[1], "$" + op[2]]
     if k in ("immut", "prune"):
         return ["$" + k, "$" + op[1], "$" + op[2]]
     if k in ("good", "iszero", "uniform", "liveok", "inv", "singlepath", "hastmpl", "nobins", "knownctype"):
@@ -490,7 +492,7 @@ def expand(op, py):
     return op
 
 
-PY_ONLY_OPS = {"noshare", "check_faithful", "snap", "checksnap", "checksnap_if_raised", "checkeq", "pickle", "hash", "iadd_pyonly"}
+PY_ONLY_OPS = {"noshare", "check_faithful", "snap", "checksnap", "checksnap_if_raised", "checkeq", "hash", "iadd_pyonly"}
 
 
 def run_history(ops, model, check_states=True, py=None, replies=None, model_ops=None, expander=None):
@@ -537,7 +539,7 @@ def run_history(ops, model, check_states=True, py=None, replies=None, model_ops=
             first = {"index": i, "op": _brief(op), "what": d, "impl": _s(rp), "model": _s(rm)}
             continue
         k = op[0]
-        if k in ("new", "add", "mul", "rmul", "zero", "copy", "load") and rp == "ok":
+        if k in ("new", "add", "mul", "rmul", "zero", "copy", "load", "pickle") and rp == "ok":
             if k != "new" and any(x in py.np_filled for x in op[2:] if isinstance(x, str)):
                 py.np_filled.add(op[1])
             if op[1] not in live:
